@@ -78,4 +78,22 @@ Definition kdash_value (T : A) (masses nd : nat -> A) (nb : nat) (a1 : nat -> A)
 (* electrical conductivity: sigma = e^2 n_tot / (rho kT) sum_j n_j m_j z_j D_{e j}, D_{e j} the last row of D *)
 Definition sigma_value (rho ntot T : A) (masses nd charges : nat -> A) (nb : nat) (De : nat -> A) : A :=
   npow N (e_ch U) 2 * ntot / (rho * kTv T) * sum_left N (map (fun j => nd j * masses j * charges j * De j) (seq 0 nb)).
+(* ---- total thermal conductivity (hand-written from functions_transport.thermal_conductivity) ----
+   hv = h * m / (rho / n_tot); x+- = n+- / sum n+-; dxdT = (x+ - x-) / (2 delta T);
+   k = k' + [sum hv DT / T] + [-(n_tot^2 / rho) sum_j sum_i m_j m_i hv_i D_ij dxdT_j]
+          + [n_tot k_B T sum_i DT_i dxdTfilt_i / (n_i m_i)],  the bracketed DT parts only when DTterms_yn *)
+Definition hv_rescaled (rho ntot : A) (masses h : nat -> A) (i : nat) : A := h i * masses i / (rho / ntot).
+Definition idx_sum (nb : nat) (f : nat -> A) : A := sum_left N (map f (seq 0 nb)).
+Definition dxdT_value (T delta : A) (nb : nat) (npos nneg : nat -> A) (j : nat) : A :=
+  (npos j / idx_sum nb npos - nneg j / idx_sum nb nneg) / (# 2%Z * delta * T).
+Definition kdt_value (T : A) (nb : nat) (hv DT : nat -> A) : A := idx_sum nb (fun i => hv i * DT i / T).
+Definition krxn_enth_value (rho ntot : A) (masses hv dxdT : nat -> A) (D : nat -> nat -> A) (nb : nat) : A :=
+  nopp N (npow N ntot 2) / rho *
+  idx_sum nb (fun j => idx_sum nb (fun i => masses j * masses i * hv i * D i j * dxdT j)).
+Definition krxn_therm_value (ntot T ni_limit : A) (masses nd DT dxdT : nat -> A) (nb : nat) : A :=
+  ntot * k_b U * T * idx_sum nb (fun i => DT i * (if nltb N (nd i) ni_limit then # 0%Z else dxdT i) / (nd i * masses i)).
+Definition kappa_total (dt_terms : bool) (rho ntot T ni_limit : A) (masses nd hv DT dxdT : nat -> A) (D : nat -> nat -> A)
+           (nb : nat) (kdash : A) : A :=
+  kdash + (if dt_terms then kdt_value T nb hv DT else # 0%Z) + krxn_enth_value rho ntot masses hv dxdT D nb
+        + (if dt_terms then krxn_therm_value ntot T ni_limit masses nd DT dxdT nb else # 0%Z).
 End Transport.
